@@ -342,6 +342,14 @@ def _judge(cases):
             ctx["dropped"].append(i)
             out.append(None)
             continue
+        if c["mode"] == "fix" and c["op"] in ("<=", ">="):
+            # the previous bound is only replaced when an observed value violates it (trim is not approved in this mode)
+            prev = eval((PREV_GE if c["op"] == ">=" else PREV_LE)[c["sh"]], mod.__dict__)
+            try:
+                if (exp >= prev) if c["op"] == ">=" else (exp <= prev):
+                    exp = prev
+            except TypeError:
+                pass
         if c["mode"] == "fix" and c["op"] == "in":
             exp = [0] + [x for x in exp if x != 0]  # fix appends to the previous list; nothing is trimmed
         if repr(got) != repr(exp):
